@@ -223,6 +223,27 @@ func c20(r *Report) {
 	})
 
 	r.Guard("C20.R3", "the static modifier resolves every request path beneath its root", func() {
+		// the root itself is normalised where it is configured ("" becomes ".", so that
+		// Join(root, "/abs/path") stays relative to the working directory instead of
+		// becoming the absolute path)
+		if T := w.Named("static", "Modifier"); T != nil {
+			if fo := structField(T, "rootPath"); fo != nil {
+				n := 0
+				for _, st := range w.fieldStores(fo) {
+					n++
+					cleaned := true
+					for _, l := range resolveAll(st.Val) {
+						if !isCallValue(l, "path.Clean", "path/filepath.Clean", "path/filepath.Abs") && !isExtractOfCall(l, "path/filepath.Abs") {
+							cleaned = false
+						}
+					}
+					r.Decide("flow", fmt.Sprintf("%s: the configured root is cleaned", fnName(st.Parent())), cleaned, "rootPath: path.Clean(rootPath)", "the root is stored as configured: an empty root stays empty and Join(\"\", \"/etc/passwd\") is the absolute path, so every file of the machine is served", st.Pos())
+				}
+				if n == 0 {
+					r.Undecided("M/static.Modifier.rootPath", "UNRESOLVED: no store")
+				}
+			}
+		}
 		f := mods[1].f
 		opens := plainCalls(f, "os.Open")
 		if len(opens) != 1 {
